@@ -143,6 +143,8 @@ class Sym:
         self.meta = meta
         self.uid = next(_ctr)
         self.key = meta.pop('key', None)
+        if isinstance(meta.get('lo'), int) and isinstance(meta.get('hi'), int):
+            self.bounds = (meta['lo'], meta['hi'])       # an integer known to lie in [lo, hi] (the scenario's premise, e.g. "fits the field")
 
     def __repr__(self):
         return f'Sym({self.name})'
